@@ -390,6 +390,8 @@ pub struct Expect {
     pub written_via: Vec<String>,
     /// eligible files of a format-all run that cannot be read (finding F14)
     pub read_failures_in_format_all: usize,
+    /// every reason for a non-zero status in the model is such a read failure
+    pub only_read_failures: bool,
 }
 
 pub struct Parsed {
@@ -688,6 +690,7 @@ pub fn model_step(state: &BTreeMap<String, ModelFile>, step: &Step) -> Expect {
         ex.stdout = if !p.check && !p.inplace { Some(stdout.clone()) } else { None };
     }
     ex.changed = changed;
+    ex.only_read_failures = errors > 0 && errors == ex.read_failures_in_format_all && !(p.check && changed > 0);
     ex.exit = if errors > 0 {
         1
     } else if p.check && changed > 0 {
@@ -834,12 +837,13 @@ pub fn run_scenario(sc: &Scenario, prop: &str, use_strace: bool) -> Option<Outco
             out.violations.push((
                 "exit-status".into(),
                 format!(
-                    "{}: exit status {:?}, model says {} ({} changed input(s), {} unreadable/non-UTF-8 eligible file(s) in the format-all tree); stderr: {:?}",
+                    "{}: exit status {:?}, model says {} ({} changed input(s), {} unreadable/non-UTF-8 eligible file(s) in the format-all tree{}); stderr: {:?}",
                     tag,
                     res.code,
                     ex.exit,
                     ex.changed,
                     ex.read_failures_in_format_all,
+                    if ex.only_read_failures { ", which are the model's only reason for a non-zero status" } else { "" },
                     util::clip(&String::from_utf8_lossy(&res.stderr), 160)
                 ),
             ));
@@ -1367,6 +1371,10 @@ pub fn run(prop: &str, tier: Tier) -> (RunMeta, Acc) {
                 cases.push(crate::engine::Case::new(format!("#f(\"{}", "x".repeat(len)), format!("erroneous single line of {} bytes", len)));
                 n_special += 2;
             }
+            // the scenario format carries sources as text files created through the shell-free runner, which cannot hold NUL
+            let before = cases.len();
+            cases.retain(|c| !c.text.contains('\0') && c.text.len() <= 2_000_000);
+            acc.count("sources_skipped(contain NUL or > 2 MB)", (before - cases.len()) as u64);
             let n = if tier == Tier::Quick { 260 } else { 4000 };
             let mut idx: Vec<usize> = (0..cases.len()).collect();
             rng.shuffle(&mut idx);
